@@ -87,8 +87,11 @@ fn text_fields(d: &[u8]) -> Result<Vec<(String, String)>, String> {
 pub fn exec(w: &[&str], obs: &mut Obs) -> Option<String> {
     let case = w.join(" ");
     match w {
-        ["x-cutbin", h, bounds] => {
+        ["x-cutbin", h, bounds, rest @ ..] => {
             let d = unhex(h)?;
+            // optional document-shaped target type: nested objects are then read through MapAccess
+            // (struct / map requests), not through the untyped sequence view
+            let shaped: Option<String> = rest.first().map(|s| s.to_string());
             let bounds: Vec<usize> = if *bounds == "-" { vec![] } else { bounds.split(',').filter_map(|x| x.parse().ok()).collect() };
             let full: Vec<Option<Vec<(String, String)>>> = (0..4).map(|p| bin_any(&d, p).ok().and_then(|v| top_entries(&v))).collect();
             let full_tape = BinaryTape::from_slice(&d).ok().map(|t| show::bin_tape(t.tokens()));
@@ -134,6 +137,11 @@ pub fn exec(w: &[&str], obs: &mut Obs) -> Option<String> {
                     // still be an error (the skip must not swallow the end of input)
                     if let Ok(v) = bin_skip_all(pre, p) {
                         if !at_boundary { obs.violation("cut-accepted-binary-skip", &case, &format!("path {}: prefix {} is inside a field that the target skips, yet deserializes to {}", p, k, v)); }
+                    }
+                    if let Some(ty) = &shaped {
+                        if let Ok(v) = bin_ty(pre, p, ty) {
+                            if !at_boundary { obs.violation("cut-accepted-binary-shaped", &case, &format!("path {}: prefix {} is inside a field, yet deserializes into {} as {}", p, k, ty, v)); }
+                        }
                     }
                 }
             }
@@ -210,7 +218,8 @@ pub fn gen_de_cut(g: &mut Gen) {
         }
         if bytes.len() <= 300 && !bytes.is_empty() {
             let b = bounds.iter().map(|x| x.to_string()).collect::<Vec<_>>().join(",");
-            g.emit(format!("x-cutbin {} {}", hex(&bytes), if b.is_empty() { "-".to_string() } else { b }));
+            let ty = crate::tyseed::doc_ty(&mut g.rng, &doc, false);
+            g.emit(format!("x-cutbin {} {} {}", hex(&bytes), if b.is_empty() { "-".to_string() } else { b }, crate::tyseed::show_ty(&ty)));
         }
         let doc = docgen::gen_doc(&mut g.rng, &DocCfg { max_fields: 4, ..DocCfg::save_style() });
         let lex = docgen::lexemes(&doc);
